@@ -25,6 +25,7 @@ import CaddyModel.C13.Witness
 import CaddyModel.C13.ListenLemmas
 import CaddyModel.C13.Caddyfile
 import CaddyModel.Gen.AdminGate
+import CaddyModel.Gen.Glue
 
 namespace CaddyModel.C13
 
@@ -357,6 +358,28 @@ theorem remote_endpoint_serves_only_authorised (H : Bytes → Req → σ → σ)
         remote_served_only_if_authorised H mux _ idx fuel r s acl hr d (by rw [ht]; exact hd)
       rw [htls] at htls'; cases htls'
       exact hauth'
+
+/-- what the model of the remote endpoint takes for granted about `replaceRemoteAdminServer`:
+    the TLS server requires AND verifies a client certificate (so `Req.tls` really is the list of
+    VERIFIED chains, and a request without one never arrives) … -/
+def assumedRemoteClientAuth : List String := ["tls.RequireAndVerifyClientCert"]
+/-- … and the public key of each configured certificate is appended to the access-control entry
+    it was configured under (so `Access.keys` are the keys of that entry's `public_keys`, and the
+    permissions checked for a key are those written next to it). -/
+def assumedRemoteKeyAppends : List String :=
+  ["accessControl <- range cfg.Admin.Remote.AccessControl : append(accessControl.publicKeys,cert.PublicKey)"]
+
+/-- **the remote-endpoint glue the model assumes is the glue of the source as it is now**
+    (`Gen/Glue.lean` is regenerated from /repo's admin.go by tools/extract on every run): every value
+    assigned to a `.ClientAuth` field in `replaceRemoteAdminServer` is
+    `tls.RequireAndVerifyClientCert` (and there is such an assignment), and the only assignment to
+    a `.publicKeys` field appends the certificate's key to the very entry the loop ranges over.
+    `remote_served_only_if_authorised` talks about verified chains and about the keys of one entry;
+    this is what makes those the right notions. -/
+theorem remote_admin_glue_matches_source :
+    Gen.remoteAdminClientAuth = assumedRemoteClientAuth ∧
+    Gen.remoteAdminKeyAppends = assumedRemoteKeyAppends := by
+  decide
 
 -- ================================================================ termination
 
